@@ -44,7 +44,13 @@ type State struct {
 	alloc  Term
 	defers map[*ssa.Defer]Term // site -> Bool "registered and pending"
 	prov   *prov
+	esc    map[string]escRec // containers handed to code that may retain them
 	owned  map[string]ownedCell // cells allocated by the running activations whose address has not been given away
+}
+
+type escRec struct {
+	cond Term
+	id   Term
 }
 
 type mapLenRec struct {
@@ -64,6 +70,10 @@ func (s *State) copy() *State {
 	}
 	for k, v := range s.defers {
 		n.defers[k] = v
+	}
+	n.esc = make(map[string]escRec, len(s.esc))
+	for k, v := range s.esc {
+		n.esc[k] = v
 	}
 	n.owned = make(map[string]ownedCell, len(s.owned))
 	for k, v := range s.owned {
@@ -136,6 +146,9 @@ type Tr struct {
 	lockMode  bool
 	inlineBudget int
 	valOKText string
+	noUserInv bool
+	noContracts bool
+	prop      string
 	piTerm    Term
 	coverResult string
 	typeInvMode bool
@@ -267,6 +280,8 @@ func (tr *Tr) heapOf(st *State, c *Component) *HeapV {
 		p := st.prov
 		prev := tr.heapOf(p.prev, c)
 		switch {
+		case strings.HasPrefix(c.name, "ghost:lock"):
+			h = prev // callees are lock-balanced (each is checked for lock/balance itself)
 		case c.local && !p.mods[c.name]:
 			h = prev
 		case !p.all && !p.mods[c.name]:
@@ -359,6 +374,7 @@ type Act struct {
 	frameCallee *ssa.Function
 	visMode  string
 	curBlock *ssa.BasicBlock
+	guards   map[ssa.Value]*guardInfo
 	pendingExits   []pendingExit
 }
 
@@ -738,4 +754,77 @@ func sortedBlocks(m map[*ssa.BasicBlock]bool) []*ssa.BasicBlock {
 	}
 	sort.Slice(out, func(i, j int) bool { return out[i].Index < out[j].Index })
 	return out
+}
+
+type condID struct {
+	cond Term
+	id   Term
+}
+
+// idsIn: the container ids directly inside a value of type t (not through the heap).
+func (tr *Tr) idsIn(t types.Type, x Term, depth int) []condID {
+	switch u := t.Underlying().(type) {
+	case *types.Slice:
+		if isValueElem(u.Elem()) {
+			return []condID{{"true", app("s_arr", x)}}
+		}
+	case *types.Map:
+		if typeStr(u.Key()) == "string" && isValueElem(u.Elem()) {
+			return []condID{{"true", x}}
+		}
+	case *types.Struct:
+		si := tr.eng.sorts.structOf(t)
+		if si == nil || depth > 1 {
+			return nil
+		}
+		var out []condID
+		for i := 0; i < u.NumFields(); i++ {
+			ft := u.Field(i).Type()
+			if isInterface(ft) {
+				continue
+			}
+			out = append(out, tr.idsIn(ft, app(si.fields[i], x), depth+1)...)
+		}
+		return out
+	case *types.Interface:
+		if depth > 0 {
+			return nil
+		}
+		var out []condID
+		for _, name := range []string{"List", "Vector", "HashMap", "Set"} {
+			nt := tr.eng.namedType("types", name)
+			if nt == nil {
+				continue
+			}
+			for _, c := range tr.idsIn(nt, tr.eng.sorts.unVal(nt, x), 1) {
+				out = append(out, condID{And(tr.eng.sorts.isCtor(nt, x), c.cond), c.id})
+			}
+		}
+		return out
+	}
+	return nil
+}
+
+// markEscaped: the containers inside x may be retained by someone else from now on.
+func (tr *Tr) markEscaped(st *State, t types.Type, x Term) {
+	if !tr.frameMode {
+		return
+	}
+	for _, c := range tr.idsIn(t, x, 0) {
+		key := c.cond + "|" + c.id + "|" + st.reach
+		if st.esc == nil {
+			st.esc = map[string]escRec{}
+		}
+		st.esc[key] = escRec{cond: And(st.reach, c.cond), id: c.id}
+	}
+}
+
+// writableAt: allocated by this activation (or assignable by contract) and not handed out yet.
+func (tr *Tr) writableAt(st *State, id Term) Term {
+	t := tr.writable(id)
+	for _, k := range sortedKeys(st.esc) {
+		e := st.esc[k]
+		t = And(t, Not(And(e.cond, Eq(id, e.id))))
+	}
+	return t
 }
